@@ -4,7 +4,7 @@
   Theorems are about `Mon.C04.ok`, the monitor the driver also evaluates on implementation traces.
   The first half of this file (monitor fold, view, leaf specifications) is shared with C11.
 -/
-import Redress.Lemmas.Footprint
+import Redress.Lemmas.Hoare
 import Redress.Monitors
 
 open Std.Do
@@ -79,6 +79,11 @@ theorem inert_not_op (r : Req) (h : inertK r.kind = true) : isOp r = false := by
 abbrev inertPost (cfg : Cfg) (v : View) : PostCond α (.except Exn (.arg World .pure)) :=
   post⟨fun _ w => ⌜view cfg w = v⌝, fun e w => ⌜Thrown w.trace e ∧ view cfg w = v⌝⟩
 
+/-- equal but for the stop reason -/
+def sameBut (u v : View) : Prop :=
+  v.mon = u.mon ∧ v.lastExc = u.lastExc ∧ v.lastResult = u.lastResult ∧ v.lastClass = u.lastClass ∧
+    v.lastCause = u.lastCause ∧ v.attempts = u.attempts
+
 section leaves
 variable (cfg : Cfg) (v : View) (tl : Bool)
 
@@ -151,16 +156,873 @@ abbrev hookPost (cfg : Cfg) (v : View) : PostCond α (.except Exn (.arg World .p
 
 theorem ask_attemptStart (c : AttemptCtx) :
     ⦃fun w => ⌜view cfg w = v⌝⦄ ask (.attemptStart c) ⦃hookPost cfg v⦄ := by
+  have hop : isOp (Req.attemptStart c) = false := rfl
   mvcgen [ask]
-  all_goals (subst_vars; simp_all +zetaDelta [view, step, Thrown.head, Thrown.stuck, isOp])
-  all_goals (split <;> simp_all)
+  all_goals (subst_vars; simp_all +zetaDelta [view, step, Thrown.head, Thrown.stuck])
 
 theorem ask_attemptEnd (c : AttemptCtx) :
     ⦃fun w => ⌜view cfg w = v⌝⦄ ask (.attemptEnd c) ⦃hookPost cfg v⦄ := by
+  have hop : isOp (Req.attemptEnd c) = false := rfl
   mvcgen [ask]
-  all_goals (subst_vars; simp_all +zetaDelta [view, step, Thrown.head, Thrown.stuck, isOp])
-  all_goals (split <;> simp_all)
+  all_goals (subst_vars; simp_all +zetaDelta [view, step, Thrown.head, Thrown.stuck])
+
+attribute [local spec] ask_attemptStart ask_attemptEnd
+
+theorem callAttemptStart_h (a : Nat) :
+    ⦃fun w => ⌜view cfg w = v⌝⦄ callAttemptStart cfg a ⦃hookPost cfg v⦄ := by
+  mvcgen [callAttemptStart, elapsed]
+  close_i
+
+theorem callAttemptEnd_h (a : Nat) (cls : Option Classification) (exc : Option Exn) (r : Option Nat)
+    (d : AttemptDecision) (st : Option StopReason) (c : Option Cause) (sl : Option Nat) :
+    ⦃fun w => ⌜view cfg w = v⌝⦄ callAttemptEnd cfg a cls exc r d st c sl ⦃hookPost cfg v⦄ := by
+  mvcgen [callAttemptEnd, elapsed]
+  close_i
+
+attribute [local spec] callAttemptEnd_h
+
+theorem callAttemptEndFromOutcome_h (a : Nat) (o : AOutcome) :
+    ⦃fun w => ⌜view cfg w = v⌝⦄ callAttemptEndFromOutcome cfg a o ⦃hookPost cfg v⦄ := by
+  mvcgen [callAttemptEndFromOutcome]
+  close_i
+
+theorem handleAbortAttemptEnd_h (a : Nat) (e : Exn) :
+    ⦃fun w => ⌜view cfg w = v⌝⦄ handleAbortAttemptEnd cfg a e ⦃hookPost cfg v⦄ := by
+  mvcgen [handleAbortAttemptEnd, getAS, modifyAS]
+  close_i
+
+/-! #### the caller's strategy / sleeper callbacks: an exception from them is a `fault` unless it
+    is an abort -/
+
+/-- how a raising callback of the caller moved the view -/
+def FErr (v v' : View) (e : Exn) : Prop :=
+  v'.mon.opAfterFault = v.mon.opAfterFault ∧ v'.mon.hookFault = v.mon.hookFault ∧
+    (e.isAbort = true → v' = v)
+
+abbrev faultPost (cfg : Cfg) (v : View) : PostCond α (.except Exn (.arg World .pure)) :=
+  post⟨fun _ w => ⌜view cfg w = v⌝, fun e w => ⌜Thrown w.trace e ∧ FErr v (view cfg w) e⌝⟩
+
+theorem faultBy_abort (m : St) (e : Exn) (h : e.isAbort = true) : faultBy m e = m := by
+  simp [faultBy, h]
+
+macro "close_f" : tactic => `(tactic| all_goals (
+  (try subst_vars) <;> (try intros) <;>
+  first
+    | (simp_all +zetaDelta [view, step, FErr, faultBy, Thrown.head, Thrown.stuck]; done)
+    | skip))
+
+theorem callStrategy_f (key : SKey) (kind : SKind) (ctx : BackoffCtx) :
+    ⦃fun w => ⌜view cfg w = v⌝⦄ callStrategy key kind ctx ⦃faultPost cfg v⦄ := by
+  have hop : isOp (Req.strategy key kind ctx) = false := rfl
+  mvcgen [callStrategy, ask]
+  close_f
+
+theorem stratRecordFailure_f (key : SKey) (k : EClass) :
+    ⦃fun w => ⌜view cfg w = v⌝⦄ stratRecordFailure cfg key k ⦃faultPost cfg v⦄ := by
+  have hop : isOp (Req.stratRecordFailure key k) = false := rfl
+  mvcgen [stratRecordFailure, ask]
+  close_f
+
+theorem callSleeper_f (d : Nat) :
+    ⦃fun w => ⌜view cfg w = v⌝⦄ callSleeper cfg d ⦃faultPost cfg v⦄ := by
+  have hop : isOp (Req.sleeper cfg.sleeper d) = false := rfl
+  mvcgen [callSleeper, ask]
+  close_f
+
+/-- `strategy.record_success()`: an AbortRetryError from it revokes the success -/
+def SErr (v v' : View) (e : Exn) : Prop :=
+  v'.mon.opAfterFault = v.mon.opAfterFault ∧ v'.mon.hookFault = v.mon.hookFault ∧
+    (e.isAbort = true → v' = { v with mon := { v.mon with abortedSuccess := true } })
+
+theorem recordStrategySuccess_s :
+    ⦃fun w => ⌜view cfg w = v⌝⦄ recordStrategySuccess cfg
+    ⦃post⟨fun _ w => ⌜view cfg w = v⌝, fun e w => ⌜Thrown w.trace e ∧ SErr v (view cfg w) e⌝⟩⦄ := by
+  have hop : ∀ key, isOp (Req.stratRecordSuccess key) = false := fun _ => rfl
+  mvcgen [recordStrategySuccess, getRS, ask]
+  all_goals ((try subst_vars) <;> (try intros) <;>
+    first
+      | (simp_all +zetaDelta [view, step, SErr, faultBy, Thrown.head, Thrown.stuck]; done)
+      | skip)
+
+/-- the monitor after the sleep handler answered -/
+def handlerStep (m : St) (d : Nat) (dec : SleepDecision) : St :=
+  { m with delay := some d, deferred := dec == .defer, badDecision := dec == .other }
+
+theorem callSleepHandler_f (lvl : Lvl) (ctx : BackoffCtx) (d : Nat) :
+    ⦃fun w => ⌜view cfg w = v⌝⦄ callSleepHandler lvl ctx d
+    ⦃post⟨fun dec w => ⌜view cfg w = { v with mon := handlerStep v.mon d dec }⌝,
+          fun e w => ⌜Thrown w.trace e ∧ FErr v (view cfg w) e⌝⟩⦄ := by
+  have hop : isOp (Req.sleepHandler lvl ctx d) = false := rfl
+  mvcgen [callSleepHandler, ask]
+  all_goals ((try subst_vars) <;> (try intros) <;>
+    first
+      | (simp_all +zetaDelta [view, step, FErr, faultBy, handlerStep, Thrown.head, Thrown.stuck]; done)
+      | skip)
+
+/-- the monitor after the classifier announced `c` for the exception the operation raised -/
+def clsStep (cfg : Cfg) (m : St) (c : Classification) : St := step cfg m (.classify "", .klass c 0)
+
+theorem callClassifier_f (e : Exn) :
+    ⦃fun w => ⌜view cfg w = v⌝⦄ callClassifier e
+    ⦃post⟨fun c w => ⌜view cfg w = { v with mon := clsStep cfg v.mon c }⌝,
+          fun e w => ⌜Thrown w.trace e ∧ FErr v (view cfg w) e⌝⟩⦄ := by
+  have hop : isOp (Req.classify e.ref) = false := rfl
+  mvcgen [callClassifier, ask]
+  all_goals ((try subst_vars) <;> (try intros) <;>
+    first
+      | (simp_all +zetaDelta [view, step, FErr, faultBy, clsStep, Thrown.head, Thrown.stuck]; done)
+      | skip)
+
+/-- the monitor after the result classifier answered -/
+def resStep (cfg : Cfg) (m : St) : Option Classification → St
+  | none => if cfg.resultClassifier then { m with succeeded := true } else m
+  | some c => step cfg m (.resultClassify 0, .klass c 0)
+
+theorem shouldClassifyResult_f (x : Nat) :
+    ⦃fun w => ⌜view cfg w = v⌝⦄ shouldClassifyResult cfg x
+    ⦃post⟨fun r w => ⌜view cfg w = { v with mon := resStep cfg v.mon r } ∧ (r.isSome → cfg.resultClassifier = true)⌝,
+          fun e w => ⌜Thrown w.trace e ∧ FErr v (view cfg w) e⌝⟩⦄ := by
+  have hop : isOp (Req.resultClassify x) = false := rfl
+  mvcgen [shouldClassifyResult, ask]
+  all_goals ((try subst_vars) <;> (try intros) <;>
+    first
+      | (simp_all +zetaDelta [view, step, FErr, faultBy, resStep, Thrown.head, Thrown.stuck]; done)
+      | skip)
+
+/-! #### stop reasons -/
+
+theorem setStop_spec (st : StopReason) :
+    ⦃fun w => ⌜view cfg w = v⌝⦄ setStop st
+    ⦃post⟨fun _ w => ⌜view cfg w = { v with lastStop := some st }⌝, fun _ _ => ⌜False⌝⟩⦄ := by
+  mvcgen [setStop, modifyRS]
+  all_goals (subst_vars; simp_all +zetaDelta [view])
+
+attribute [local spec] setStop_spec
+
+theorem stopWith_spec (st : StopReason) (ev : Event) (a : Nat) (k : EClass) (e : Option Exn) (c : Cause) :
+    ⦃fun w => ⌜view cfg w = v⌝⦄ stopWith cfg tl st ev a k e c
+    ⦃post⟨fun d w => ⌜d = .raise ∧ view cfg w = { v with lastStop := some st }⌝,
+          fun e w => ⌜Thrown w.trace e ∧ view cfg w = { v with lastStop := some st }⌝⟩⦄ := by
+  mvcgen [stopWith]
+  close_i
+
+theorem emitAbortedOnce_spec (a : Nat) :
+    ⦃fun w => ⌜view cfg w = v⌝⦄ emitAbortedOnce cfg tl a
+    ⦃post⟨fun _ w => ⌜view cfg w = { v with lastStop := some .aborted }⌝,
+          fun e w => ⌜Thrown w.trace e ∧ view cfg w = { v with lastStop := some .aborted }⌝⟩⦄ := by
+  mvcgen [emitAbortedOnce, getRS]
+  close_i
+
+/-- the monitor after `abort_if` answered "go on" -/
+def pollStep (cfg : Cfg) (m : St) : St :=
+  if cfg.abortIf then step cfg m (.abortIf, .bool false 0) else m
+
+/-- `check_abort`: on the exceptional exit either the library's own abort (and the view is as before
+    but for the stop reason) or an exception from the predicate (a hook fault) or from a hook -/
+theorem checkAbort_spec (a : Nat) :
+    ⦃fun w => ⌜view cfg w = v⌝⦄ checkAbort cfg tl a
+    ⦃post⟨fun _ w => ⌜view cfg w = { v with mon := pollStep cfg v.mon }⌝,
+          fun e w => ⌜(e ≠ .libAbort → Thrown w.trace e) ∧ (e.isAbort = false → Thrown w.trace e) ∧
+            ((view cfg w).mon.hookFault = false → sameBut v (view cfg w))⌝⟩⦄ := by
+  have hop : isOp Req.abortIf = false := rfl
+  mvcgen [checkAbort, ask]
+  all_goals ((try subst_vars) <;> (try intros) <;>
+    first
+      | (simp_all +zetaDelta [view, step, pollStep, sameBut, Thrown.head, Thrown.stuck, Exn.isAbort]; done)
+      | (simp +zetaDelta [view, pollStep, *]; rfl)
+      | skip)
+
+/-! #### the operation -/
+
+def opStep (cfg : Cfg) (m : St) (a : Ans) : St := step cfg m (.op 0, a)
+
+theorem step_op (cfg : Cfg) (m : St) (n : Nat) (a : Ans) : step cfg m (.op n, a) = opStep cfg m a := rfl
+
+theorem invokeOp_spec (a : Nat) :
+    ⦃fun w => ⌜view cfg w = v⌝⦄ invokeOp a
+    ⦃post⟨fun x w => ⌜∃ d, view cfg w = { v with mon := opStep cfg v.mon (.value x d) }⌝,
+          fun e w => ⌜(e ≠ .stuck → ∃ d, view cfg w = { v with mon := opStep cfg v.mon (.raise e d) }) ∧
+            (view cfg w).mon.opAfterFault = (v.mon.opAfterFault || v.mon.fault) ∧
+            (view cfg w).mon.hookFault = v.mon.hookFault⌝⟩⦄ := by
+  mvcgen [invokeOp, ask]
+  all_goals ((try subst_vars) <;> (try intros) <;>
+    first
+      | (simp_all +zetaDelta [view, step_op]; done)
+      | (simp_all +zetaDelta [view, step_op, opStep, step]; done)
+      | skip)
+
+/-! #### outcomes -/
+
+/-- `_build_outcome` as a function of the view -/
+def outcomeOf (v : View) (ok : Bool) (value : Option Nat) (attempts : Nat) (ns : Option Nat) (el : Nat) :
+    Outcome :=
+  { ok, value := if ok then value else none,
+    stop := if ok then none else v.lastStop,
+    attempts,
+    lastClass := if ok then none else v.lastClass,
+    lastExc := if !ok && v.lastCause = some .exception then v.lastExc.map Exn.ref else none,
+    lastResult := if !ok && v.lastCause = some .result then v.lastResult else none,
+    cause := if ok then none else v.lastCause,
+    elapsed := el, nextSleep := ns }
+
+/-- `o` is what `_build_outcome` makes of the view (whatever the elapsed time) -/
+def IsOutcome (v : View) (ok : Bool) (value : Option Nat) (attempts : Nat) (ns : Option Nat) (o : Outcome) :
+    Prop := ∃ el, o = outcomeOf v ok value attempts ns el
+
+theorem buildOutcome_spec (ok : Bool) (value : Option Nat) (n : Nat) (ns : Option Nat) :
+    ⦃fun w => ⌜view cfg w = v⌝⦄ buildOutcome ok value n ns
+    ⦃post⟨fun o w => ⌜IsOutcome v ok value n ns o ∧ view cfg w = v⌝, fun _ _ => ⌜False⌝⟩⦄ := by
+  mvcgen [buildOutcome, getRS, elapsed]
+  all_goals (subst_vars; rename_i s; exact ⟨⟨s.now - s.rs.start, rfl⟩, rfl⟩)
+
+attribute [local spec] buildOutcome_spec emitAbortedOnce_spec
+
+theorem abortOutcome_spec (n : Nat) :
+    ⦃fun w => ⌜view cfg w = v⌝⦄ abortOutcome cfg tl n
+    ⦃post⟨fun o w => ⌜IsOutcome { v with lastStop := some .aborted } false none n none o ∧
+            view cfg w = { v with lastStop := some .aborted }⌝,
+          fun e w => ⌜Thrown w.trace e ∧ view cfg w = { v with lastStop := some .aborted }⌝⟩⦄ := by
+  mvcgen [abortOutcome]
+  close_i
+  all_goals (subst_vars; simp_all +zetaDelta)
+
+/-- the stop reason a sleep-handler decision sets -/
+def decisionStop (ls : Option StopReason) : SleepDecision → Option StopReason
+  | .defer => some .scheduled
+  | .abort => some .aborted
+  | _ => ls
+
+theorem handleSleepDecision_spec (act : SleepDecision) (a d : Nat) :
+    ⦃fun w => ⌜view cfg w = v⌝⦄ handleSleepDecision cfg tl act a d
+    ⦃post⟨fun r w => ⌜r = act ∧ act ≠ .other ∧ view cfg w = { v with lastStop := decisionStop v.lastStop act }⌝,
+          fun e w => ⌜(act = .other → e = .libValueError) ∧ (act ≠ .other → Thrown w.trace e) ∧
+            view cfg w = { v with lastStop := decisionStop v.lastStop act }⌝⟩⦄ := by
+  mvcgen [handleSleepDecision, getRS]
+  all_goals ((try subst_vars) <;> (try intros) <;>
+    first
+      | (simp_all +zetaDelta [view, decisionStop]; done)
+      | skip)
 
 end leaves
+
+attribute [local spec] emit_i callBeforeSleep_i budgetConsume_i callAttemptStart_h callAttemptEnd_h
+  callAttemptEndFromOutcome_h handleAbortAttemptEnd_h callStrategy_f stratRecordFailure_f callSleeper_f
+  recordStrategySuccess_s callSleepHandler_f callClassifier_f shouldClassifyResult_f setStop_spec
+  stopWith_spec emitAbortedOnce_spec checkAbort_spec invokeOp_spec buildOutcome_spec abortOutcome_spec
+  handleSleepDecision_spec
+
+/-! ### procedures shared by call() and execute(): what happens after a failure was classified -/
+
+/-- a stop reason other than SCHEDULED is set -/
+def hard : Option StopReason → Prop
+  | some .scheduled => False
+  | some _ => True
+  | none => False
+
+/-- what an exception out of the failure handling leaves behind -/
+def CErr (u v : View) (e : Exn) : Prop :=
+  v.mon.opAfterFault = u.mon.opAfterFault ∧ v.mon.hookFault = u.mon.hookFault ∧
+    (e.isAbort = true → sameBut u v)
+
+/-- where an exception that leaves the failure handling comes from: a callback, or the library's
+    ValueError for a sleep handler that did not return a SleepDecision -/
+def Src (cfg : Cfg) (w : World) (e : Exn) : Prop :=
+  Thrown w.trace e ∨ (e = .libValueError ∧ (cur cfg w.trace).badDecision = true)
+
+@[simp] theorem Src_of_thrown {cfg : Cfg} {w : World} {e : Exn} (h : Thrown w.trace e) : Src cfg w e :=
+  Or.inl h
+
+abbrev cerrPost (cfg : Cfg) (u : View) (Q : α → World → Prop) : PostCond α (.except Exn (.arg World .pure)) :=
+  post⟨fun r w => ⌜Q r w⌝, fun e w => ⌜Src cfg w e ∧ CErr u (view cfg w) e⌝⟩
+
+/-- equal but for what the sleep handler's answer sets -/
+def hsame (m m' : St) : Prop :=
+  m'.ops = m.ops ∧ m'.opExc = m.opExc ∧ m'.opVal = m.opVal ∧ m'.cls = m.cls ∧ m'.pending = m.pending ∧
+  m'.succeeded = m.succeeded ∧ m'.earlierSuccess = m.earlierSuccess ∧ m'.recAt = m.recAt ∧
+  m'.recExc = m.recExc ∧ m'.recVal = m.recVal ∧ m'.recCls = m.recCls ∧ m'.recCause = m.recCause ∧
+  m'.abortedSuccess = m.abortedSuccess ∧ m'.fault = m.fault ∧ m'.opAfterFault = m.opAfterFault ∧
+  m'.hookFault = m.hookFault
+
+/-- equal but for the stop reason and the sleep handler's answer -/
+def sameButH (u v : View) : Prop :=
+  hsame u.mon v.mon ∧ v.lastExc = u.lastExc ∧ v.lastResult = u.lastResult ∧ v.lastClass = u.lastClass ∧
+    v.lastCause = u.lastCause ∧ v.attempts = u.attempts
+
+/-- what an exception out of the sleep phase leaves behind -/
+def HErr (u v : View) (e : Exn) : Prop :=
+  v.mon.opAfterFault = u.mon.opAfterFault ∧ v.mon.hookFault = u.mon.hookFault ∧
+    (e.isAbort = true → sameButH u v)
+
+macro "close_c" : tactic => `(tactic| all_goals (
+  (try subst_vars) <;> (try intros) <;>
+  first
+    | (simp_all +zetaDelta [view, sameBut, sameButH, hsame, CErr, HErr, FErr, hard, handlerStep, decisionStop]; done)
+    | skip))
+
+section shared
+variable (cfg : Cfg) (tl : Bool)
+
+theorem grantRetry_spec (u : View) (c : Classification) (a : Nat) (cause : Cause) (e : Option Exn) (key : SKey)
+    (kind : SKind) (rem : Nat) :
+    ⦃fun w => ⌜view cfg w = u⌝⦄ grantRetry cfg tl c a cause e key kind rem
+    ⦃cerrPost cfg u fun d w => sameBut u (view cfg w) ∧ (d = .raise → hard (view cfg w).lastStop)⦄ := by
+  mvcgen [grantRetry, getRS, modifyRS]
+  close_c
+
+attribute [local spec] grantRetry_spec
+
+theorem handleFailure2_spec (u : View) (c : Classification) (a : Nat) (cause : Cause) (e : Option Exn) :
+    ⦃fun w => ⌜view cfg w = u⌝⦄ handleFailure2 cfg tl c a cause e
+    ⦃cerrPost cfg u fun d w => sameBut u (view cfg w) ∧ (d = .raise → hard (view cfg w).lastStop)⦄ := by
+  mvcgen [handleFailure2, elapsed, modifyRS]
+  close_c
+
+attribute [local spec] handleFailure2_spec
+
+theorem handleUnknown_spec (u : View) (c : Classification) (a : Nat) (cause : Cause) (e : Option Exn) :
+    ⦃fun w => ⌜view cfg w = u⌝⦄ handleUnknown cfg tl c a cause e
+    ⦃cerrPost cfg u fun d w => sameBut u (view cfg w) ∧ (d = .raise → hard (view cfg w).lastStop)⦄ := by
+  mvcgen [handleUnknown, getRS, modifyRS]
+  close_c
+
+attribute [local spec] handleUnknown_spec
+
+theorem handleFailure1_spec (u : View) (c : Classification) (a : Nat) (cause : Cause) (e : Option Exn) :
+    ⦃fun w => ⌜view cfg w = u⌝⦄ handleFailure1 cfg tl c a cause e
+    ⦃cerrPost cfg u fun d w => sameBut u (view cfg w) ∧ (d = .raise → hard (view cfg w).lastStop)⦄ := by
+  mvcgen [handleFailure1, getRS]
+  close_c
+
+attribute [local spec] handleFailure1_spec
+
+/-- the view after `record_failure` -/
+def recView (u : View) (c : Classification) (cause : Cause) (exc : Option Exn) (result : Option Nat) : View :=
+  { u with lastClass := some c.klass, lastCause := some cause,
+           lastExc := if cause = .exception then exc else none,
+           lastResult := if cause = .exception then none else result }
+
+theorem handleFailure_spec (u : View) (c : Classification) (a : Nat) (cause : Cause) (e : Option Exn)
+    (r : Option Nat) :
+    ⦃fun w => ⌜view cfg w = u⌝⦄ handleFailure cfg tl c a cause e r
+    ⦃cerrPost cfg (recView u c cause e r) fun d w =>
+      sameBut (recView u c cause e r) (view cfg w) ∧ (d = .raise → hard (view cfg w).lastStop)⦄ := by
+  mvcgen [handleFailure, Retry.recordFailure, modifyRS]
+  all_goals ((try subst_vars) <;> (try intros) <;>
+    first
+      | (simp_all +zetaDelta [view, sameBut, CErr, hard, recView]; done)
+      | skip)
+
+attribute [local spec] handleFailure_spec
+
+/-- what `_finalize_attempt` returns, by case -/
+def FinOK (u : View) (d : Decision) (act : Option SleepDecision) (o : AOutcome) (ls : Option StopReason) : Prop :=
+  o.decision ≠ .success ∧
+  (d = .raise → o.decision = .raise ∧ o.stop = u.lastStop ∧ o.sleep = none ∧ ls = u.lastStop) ∧
+  (∀ sl ctx, d = .retry sl ctx →
+    (act = some .defer → o.decision = .scheduled ∧ o.stop = some .scheduled ∧ o.sleep = some sl ∧ ls = u.lastStop) ∧
+    (act = some .abort → o.decision = .aborted ∧ ls = u.lastStop) ∧
+    (act ≠ some .defer → act ≠ some .abort →
+      (o.decision = .raise ∧ hard o.stop ∧ o.sleep = none ∧ ls = o.stop) ∨
+      (o.decision = .retry ∧ ls = u.lastStop)))
+
+theorem finalizeAttempt_spec (u : View) (a : Nat) (d : Decision) (act : Option SleepDecision)
+    (cls : Option Classification) (e : Option Exn) (r : Option Nat) (c : Option Cause) :
+    ⦃fun w => ⌜view cfg w = u⌝⦄ finalizeAttempt cfg tl a d act cls e r c
+    ⦃cerrPost cfg u fun o w => sameBut u (view cfg w) ∧ FinOK u d act o (view cfg w).lastStop⦄ := by
+  mvcgen [finalizeAttempt, getRS, elapsed]
+  all_goals ((try subst_vars) <;> (try intros) <;>
+    first
+      | (simp_all +zetaDelta [view, sameBut, CErr, hard, FinOK]; done)
+      | skip)
+
+attribute [local spec] finalizeAttempt_spec
+
+/-- what the sleep phase leaves in the monitor -/
+def SleepOK (u : View) (sl : Nat) (r : SleepDecision) (v : View) : Prop :=
+  r ≠ .other ∧ sameButH u v ∧ v.lastStop = decisionStop u.lastStop r ∧
+    (r = .defer → v.mon.deferred = true ∧ v.mon.delay = some sl) ∧
+    (r ≠ .defer → u.mon.deferred = false → v.mon.deferred = false)
+
+theorem sleepAction_spec (u : View) (a sl : Nat) (ctx : BackoffCtx) :
+    ⦃fun w => ⌜view cfg w = u⌝⦄ sleepAction cfg tl a sl ctx
+    ⦃post⟨fun r w => ⌜SleepOK u sl r (view cfg w)⌝,
+          fun e w => ⌜Src cfg w e ∧ HErr u (view cfg w) e⌝⟩⦄ := by
+  mvcgen [sleepAction]
+  all_goals ((try subst_vars) <;> (try intros) <;>
+    first
+      | (simp_all +zetaDelta [view, sameBut, sameButH, hsame, CErr, HErr, FErr, hard, handlerStep, decisionStop,
+          SleepOK, Src]; done)
+      | (cases ‹SleepDecision› <;> simp_all +zetaDelta [view, sameBut, sameButH, hsame, CErr, HErr, FErr, hard,
+          handlerStep, decisionStop, SleepOK, Src]; done)
+      | skip)
+
+
+attribute [local spec] sleepAction_spec
+
+/-- what `_sync_failure_outcome` returns and leaves behind -/
+def FailOK (u : View) (d : Decision) (o : AOutcome) (v : View) : Prop :=
+  o.decision ≠ .success ∧
+  (o.decision = .scheduled → v.mon.deferred = true ∧ o.sleep = v.mon.delay ∧ o.sleep.isSome = true ∧
+      o.stop = some .scheduled ∧ v.lastStop = some .scheduled) ∧
+  (o.decision ≠ .scheduled → u.mon.deferred = false → v.mon.deferred = false) ∧
+  (o.decision = .raise → (d = .raise → hard u.lastStop) → hard o.stop ∧ o.sleep = none ∧ v.lastStop = o.stop) ∧
+  (d = .raise → o.decision = .raise)
+
+theorem failOK_of {u v1 v : View} {sl : Nat} {ctx : BackoffCtx} {r : SleepDecision} {o : AOutcome}
+    (h1 : SleepOK u sl r v1) (h2 : sameBut v1 v) (h3 : FinOK v1 (.retry sl ctx) (some r) o v.lastStop) :
+    sameButH u v ∧ FailOK u (.retry sl ctx) o v := by
+  obtain ⟨hno, hsb, hst, hdef, hnd⟩ := h1
+  obtain ⟨hns, _, h3⟩ := h3
+  obtain ⟨hd, ha, hr⟩ := h3 sl ctx rfl
+  unfold sameBut at h2
+  unfold sameButH hsame at hsb
+  refine ⟨by unfold sameButH hsame; simp_all, ?_⟩
+  unfold FailOK
+  cases r with
+  | other => exact absurd rfl hno
+  | defer => simp_all [decisionStop]
+  | abort => simp_all [decisionStop]
+  | sleep =>
+    rcases hr (by simp) (by simp) with h | h
+    · simp_all [decisionStop]
+    · simp_all [decisionStop]
+
+theorem failureOutcome_spec (u : View) (a : Nat) (d : Decision) (cls : Option Classification)
+    (e : Option Exn) (r : Option Nat) (c : Option Cause) :
+    ⦃fun w => ⌜view cfg w = u⌝⦄ failureOutcome cfg tl a d cls e r c
+    ⦃post⟨fun o w => ⌜sameButH u (view cfg w) ∧ FailOK u d o (view cfg w)⌝,
+          fun e w => ⌜Src cfg w e ∧ HErr u (view cfg w) e⌝⟩⦄ := by
+  mvcgen [failureOutcome]
+  all_goals ((try subst_vars) <;> (try intros) <;>
+    first
+      | (simp_all +zetaDelta [view, sameBut, sameButH, hsame, CErr, HErr, hard, decisionStop, SleepOK, FinOK,
+          FailOK]; done)
+      | exact failOK_of ‹_› ‹_› ‹_›
+      | skip)
+
+end shared
+
+attribute [local spec] grantRetry_spec handleFailure2_spec handleUnknown_spec handleFailure1_spec
+  finalizeAttempt_spec sleepAction_spec failureOutcome_spec
+
+/-! ### the invariants -/
+
+/-- the retry state describes the last recorded failure -/
+def Sync (v : View) : Prop :=
+  v.lastExc = v.mon.recExc ∧ v.lastResult = v.mon.recVal ∧ v.lastClass = v.mon.recCls.map (·.klass) ∧
+    v.lastCause = v.mon.recCause
+
+/-- the recorded failure is the last invocation's -/
+def RecCur (m : St) : Prop :=
+  m.recAt = m.ops ∧ m.recCls.isSome = true ∧
+  ((m.recCause = some .exception ∧ m.recExc = m.opExc ∧ m.opExc.isSome = true ∧ m.recVal = none) ∨
+   (m.recCause = some .result ∧ m.recVal = m.opVal ∧ m.opVal.isSome = true ∧ m.recExc = none))
+
+/-- nothing has been recorded -/
+def Fresh (m : St) : Prop :=
+  m.recCause = none ∧ m.recExc = none ∧ m.recVal = none ∧ m.recCls = none ∧ m.recAt = 0
+
+/-- at the head of the loop after `n` invocations, all failed, recorded and to be retried -/
+def Hd (n : Nat) (v : View) : Prop :=
+  v.mon.ops = n ∧ Sync v ∧ (n = 0 → Fresh v.mon) ∧ (0 < n → RecCur v.mon) ∧
+    v.mon.succeeded = false ∧ v.mon.earlierSuccess = false ∧ v.mon.deferred = false ∧ v.mon.pending = false
+
+/-- invocation `n + 1` raised `e` -/
+def ExcP (n : Nat) (e : Exn) (v : View) : Prop :=
+  v.mon.ops = n + 1 ∧ Sync v ∧ v.mon.opExc = some e ∧ v.mon.opVal = none ∧ v.mon.cls = none ∧
+    v.mon.succeeded = false ∧ v.mon.earlierSuccess = false ∧ v.mon.deferred = false ∧ v.mon.pending = false
+
+/-- invocation `n + 1` returned `x` -/
+def ValP (cfg : Cfg) (n : Nat) (x : Nat) (v : View) : Prop :=
+  v.mon.ops = n + 1 ∧ Sync v ∧ v.mon.opExc = none ∧ v.mon.opVal = some x ∧ v.mon.cls = none ∧
+    v.mon.succeeded = (!cfg.resultClassifier) ∧ v.mon.earlierSuccess = false ∧ v.mon.deferred = false ∧
+    v.mon.pending = false
+
+/-- the failure of invocation `n + 1` is recorded, in the monitor and in the retry state -/
+def RecP (n : Nat) (v : View) : Prop :=
+  v.mon.ops = n + 1 ∧ Sync v ∧ RecCur v.mon ∧ v.mon.succeeded = false ∧ v.mon.earlierSuccess = false ∧
+    v.mon.pending = false
+
+/-- how call() may end with exception `e` (the monitor's verdict as a proposition) -/
+def ErrC (cfg : Cfg) (m : St) (t : List (Req × Ans)) (e : Exn) : Prop :=
+  (opRaised m e = true ∧ m.deferred = false) ∨ Thrown t e ∨ e = .libAbort ∨
+  (e = .libValueError ∧ m.badDecision = true) ∨
+  (∃ f, e = .libExhausted f ∧ fieldsOk m f = true) ∨
+  (e = .libRuntimeError ∧ cfg.maxAttempts = 0 ∧ m.ops = 0)
+
+abbrev errC (cfg : Cfg) : Exn → World → Prop := fun e w => ErrC cfg (cur cfg w.trace) w.trace e
+
+@[simp] theorem ErrC_of_thrown {cfg : Cfg} {m : St} {t : List (Req × Ans)} {e : Exn} (h : Thrown t e) :
+    ErrC cfg m t e := Or.inr (Or.inl h)
+
+theorem ErrC_of_src {cfg : Cfg} {w : World} {e : Exn} (h : Src cfg w e) :
+    ErrC cfg (cur cfg w.trace) w.trace e := by
+  rcases h with h | ⟨h1, h2⟩
+  · exact ErrC_of_thrown h
+  · exact Or.inr (Or.inr (Or.inr (Or.inl ⟨h1, h2⟩)))
+
+@[simp] theorem ErrC_libAbort {cfg : Cfg} {m : St} {t : List (Req × Ans)} : ErrC cfg m t .libAbort :=
+  Or.inr (Or.inr (Or.inl rfl))
+
+theorem ErrC_stuck {cfg : Cfg} {m : St} {t : List (Req × Ans)} : ErrC cfg m t .stuck :=
+  ErrC_of_thrown (Thrown.stuck t)
+
+theorem ErrC_op {cfg : Cfg} {m : St} {t : List (Req × Ans)} {e : Exn} (h : m.opExc = some e)
+    (hd : m.deferred = false) : ErrC cfg m t e := by
+  left
+  simp [opRaised, h, hd]
+
+/-! ### how an attempt of call() ends -/
+
+/-- the exception `deliverCall` raises for an attempt outcome (`stuck`: none, the loop goes on) -/
+def callThrow (o : AOutcome) (r : RState) (a : Nat) (fr : Bool) (orig : Option Exn) (fb : ExhaustedFields) :
+    Exn :=
+  match determineAction o r a fr with
+  | .continue_ => .stuck
+  | .abort => .libAbort
+  | .scheduled f => .libExhausted f
+  | .raise => match orig with
+    | some e => e
+    | none => .libExhausted fb
+
+theorem determineAction_continue_iff (o : AOutcome) (r : RState) (a : Nat) (fr : Bool) :
+    determineAction o r a fr = .continue_ ↔ o.decision = .retry := by
+  unfold determineAction
+  cases o.decision <;> cases fr <;> simp
+
+theorem deliverCall_spec (cfg : Cfg) (v : View) (o : AOutcome) (r : RState) (a : Nat) (fr : Bool)
+    (orig : Option Exn) (fb : ExhaustedFields) :
+    ⦃fun w => ⌜view cfg w = v⌝⦄ deliverCall (determineAction o r a fr) orig fb
+    ⦃post⟨fun x w => ⌜x = none ∧ o.decision = .retry ∧ view cfg w = v⌝,
+          fun e w => ⌜e = callThrow o r a fr orig fb ∧ o.decision ≠ .retry ∧ view cfg w = v⌝⟩⦄ := by
+  have hc := determineAction_continue_iff o r a fr
+  unfold callThrow
+  cases h : determineAction o r a fr with
+  | continue_ => mvcgen [deliverCall]; simp_all
+  | abort => mvcgen [deliverCall]; simp_all
+  | scheduled f => mvcgen [deliverCall]; simp_all
+  | raise =>
+    cases orig with
+    | none => mvcgen [deliverCall]; simp_all
+    | some e => mvcgen [deliverCall]; simp_all
+
+theorem errC_exc {cfg : Cfg} {n a : Nat} {e : Exn} {u v : View} {d : Decision} {o : AOutcome} {r : RState}
+    {t : List (Req × Ans)} (ha : a = n + 1) (hrec : RecP n v) (hexc : v.mon.opExc = some e)
+    (hcause : v.mon.recCause = some .exception) (hf : FailOK u d o v) (hud : u.mon.deferred = false)
+    (hr : r.lastStop = v.lastStop ∧ r.lastClass = v.lastClass ∧ r.lastExc = v.lastExc ∧
+      r.lastResult = v.lastResult) (hnr : o.decision ≠ .retry) :
+    ErrC cfg v.mon t (callThrow o r a false (some e) default) := by
+  obtain ⟨hops, ⟨hs1, hs2, hs3, hs4⟩, ⟨hat, hcls, hcur⟩, _, _, _⟩ := hrec
+  obtain ⟨hns, hsch, hnsch, hraise, _⟩ := hf
+  obtain ⟨hr1, hr2, hr3, hr4⟩ := hr
+  have hcur' : v.mon.recExc = v.mon.opExc ∧ v.mon.opExc.isSome = true ∧ v.mon.recVal = none := by
+    rcases hcur with ⟨_, h⟩ | ⟨hc, _⟩
+    · exact h
+    · rw [hcause] at hc; cases hc
+  obtain ⟨hre, hoe, hrv⟩ := hcur'
+  unfold callThrow determineAction
+  cases hdec : o.decision with
+  | success => exact absurd hdec hns
+  | retry => exact absurd hdec hnr
+  | aborted => simp
+  | raise =>
+    simp only []
+    exact ErrC_op hexc (hnsch (by simp [hdec]) hud)
+  | scheduled =>
+    obtain ⟨hdef, hsl, hsls, hst, _⟩ := hsch hdec
+    right; right; right; right; left
+    refine ⟨_, rfl, ?_⟩
+    simp [fieldsOk, hops, ha, hat, hr2, hs3, hcause, hr3, hs1, hdef, hst, hsl, hre, hoe]
+    rfl
+
+theorem errC_res {cfg : Cfg} {n a : Nat} {u v : View} {d : Decision} {o : AOutcome} {r : RState}
+    {t : List (Req × Ans)} {fb : ExhaustedFields} (ha : a = n + 1) (hrec : RecP n v)
+    (hcause : v.mon.recCause = some .result) (hf : FailOK u d o v) (hud : u.mon.deferred = false)
+    (hh : d = .raise → hard u.lastStop)
+    (hr : r.lastStop = v.lastStop ∧ r.lastClass = v.lastClass ∧ r.lastExc = v.lastExc ∧
+      r.lastResult = v.lastResult) (hnr : o.decision ≠ .retry) :
+    ErrC cfg v.mon t (callThrow o r a true none fb) := by
+  obtain ⟨hops, ⟨hs1, hs2, hs3, hs4⟩, ⟨hat, hcls, hcur⟩, _, _, _⟩ := hrec
+  obtain ⟨hns, hsch, hnsch, hraise, _⟩ := hf
+  obtain ⟨hr1, hr2, hr3, hr4⟩ := hr
+  have hcur' : v.mon.recVal = v.mon.opVal ∧ v.mon.opVal.isSome = true ∧ v.mon.recExc = none := by
+    rcases hcur with ⟨hc, _⟩ | ⟨_, h⟩
+    · rw [hcause] at hc; cases hc
+    · exact h
+  obtain ⟨hrv, hov, hre⟩ := hcur'
+  unfold callThrow determineAction
+  cases hdec : o.decision with
+  | success => exact absurd hdec hns
+  | retry => exact absurd hdec hnr
+  | aborted => simp
+  | raise =>
+    obtain ⟨hhard, hsl, _⟩ := hraise hdec hh
+    have hnd := hnsch (by simp [hdec]) hud
+    right; right; right; right; left
+    refine ⟨_, rfl, ?_⟩
+    cases hos : o.stop with
+    | none => simp [hos, hard] at hhard
+    | some st =>
+      cases st <;> simp_all [fieldsOk, hard]
+  | scheduled =>
+    obtain ⟨hdef, hsl, hsls, hst, _⟩ := hsch hdec
+    right; right; right; right; left
+    refine ⟨_, rfl, ?_⟩
+    simp [fieldsOk, hops, ha, hat, hr2, hs3, hcause, hr4, hs2, hdef, hst, hsl, hrv, hov]
+
+/-! ### transitions of the invariant (pure) -/
+
+theorem pollStep_idle (cfg : Cfg) (m : St) (h : m.pending = false) : pollStep cfg m = m := by
+  unfold pollStep step
+  simp [h]
+
+@[simp] theorem ErrC_of_src' {cfg : Cfg} {w : World} {e : Exn} (h : Src cfg w e) :
+    ErrC cfg (cur cfg w.trace) w.trace e := ErrC_of_src h
+
+@[simp] theorem ErrC_of_abortish {cfg : Cfg} {m : St} {t : List (Req × Ans)} {e : Exn}
+    (h : e ≠ .libAbort → Thrown t e) : ErrC cfg m t e := by
+  by_cases he : e = .libAbort
+  · subst he; exact ErrC_libAbort
+  · exact ErrC_of_thrown (h he)
+
+theorem Hd.opExc {cfg : Cfg} {n : Nat} {u : View} (h : Hd n u) (e : Exn) (d : Nat) :
+    ExcP n e { u with mon := opStep cfg u.mon (.raise e d) } := by
+  obtain ⟨h1, h2, _, _, h5, h6, h7, h8⟩ := h
+  simp_all [ExcP, Sync, opStep, step]
+
+theorem Hd.opVal {cfg : Cfg} {n : Nat} {u : View} (h : Hd n u) (x : Nat) (d : Nat) :
+    ValP cfg n x { u with mon := opStep cfg u.mon (.value x d) } := by
+  obtain ⟨h1, h2, _, _, h5, h6, h7, h8⟩ := h
+  simp_all [ValP, Sync, opStep, step]
+
+theorem ExcP.rec {cfg : Cfg} {n : Nat} {e : Exn} {u : View} (h : ExcP n e u) (c : Classification) (ls : Option StopReason) :
+    let v := recView { u with mon := clsStep cfg u.mon c, lastStop := ls } c .exception (some e) none
+    RecP n v ∧ v.mon.opExc = some e ∧ v.mon.recCause = some .exception ∧ v.mon.deferred = false := by
+  obtain ⟨h1, h2, h3, h4, h5, h6, h7, h8, h9⟩ := h
+  simp_all [RecP, RecCur, Sync, recView, clsStep, step, record]
+
+theorem ValP.rec {cfg : Cfg} {n x : Nat} {u : View} (h : ValP cfg n x u) (hrc : cfg.resultClassifier = true)
+    (c : Classification) (ls : Option StopReason) :
+    let v := recView { u with mon := pollStep cfg (resStep cfg u.mon (some c)), lastStop := ls } c .result none (some x)
+    RecP n v ∧ v.mon.recCause = some .result ∧ v.mon.deferred = false := by
+  obtain ⟨h1, h2, h3, h4, h5, h6, h7, h8, h9⟩ := h
+  cases hab : cfg.abortIf <;>
+    simp_all [RecP, RecCur, Sync, recView, pollStep, resStep, step, record]
+
+/-! ### call mode -/
+
+@[simp] theorem isRaise_iff (d : Decision) : d.isRaise = true ↔ d = .raise := by
+  cases d <;> simp [Decision.isRaise]
+
+/-- one attempt: either the loop goes on with the invariant, or a value is returned as the monitor
+    wants it; every exception is one the monitor accepts -/
+abbrev attemptPostC (cfg : Cfg) (n : Nat) : PostCond (Option Nat) (.except Exn (.arg World .pure)) :=
+  post⟨fun r w => ⌜match r with
+                   | none => Hd (n + 1) (view cfg w)
+                   | some x => (cur cfg w.trace).succeeded = true ∧ (cur cfg w.trace).earlierSuccess = false ∧
+                       (cur cfg w.trace).opVal = some x⌝,
+       fun e w => ⌜ErrC cfg (cur cfg w.trace) w.trace e⌝⟩
+
+/-- `FailOK` without reference to the view before -/
+def FailOK' (d : Decision) (o : AOutcome) (v : View) : Prop :=
+  o.decision ≠ .success ∧
+  (o.decision = .scheduled → v.mon.deferred = true ∧ o.sleep = v.mon.delay ∧ o.sleep.isSome = true ∧
+      o.stop = some .scheduled ∧ v.lastStop = some .scheduled) ∧
+  (o.decision ≠ .scheduled → v.mon.deferred = false) ∧
+  (o.decision = .raise → hard o.stop ∧ o.sleep = none ∧ v.lastStop = o.stop) ∧
+  (d = .raise → o.decision = .raise)
+
+theorem FailOK.strip {u v : View} {d : Decision} {o : AOutcome} (h : FailOK u d o v)
+    (hd : u.mon.deferred = false) (hh : d = .raise → hard u.lastStop) : FailOK' d o v := by
+  obtain ⟨h1, h2, h3, h4, h5⟩ := h
+  exact ⟨h1, h2, fun hn => h3 hn hd, fun hr => h4 hr hh, h5⟩
+
+theorem errC_exc' {cfg : Cfg} {n a : Nat} {e : Exn} {v : View} {d : Decision} {o : AOutcome} {r : RState}
+    {t : List (Req × Ans)} (ha : a = n + 1) (hrec : RecP n v) (hexc : v.mon.opExc = some e)
+    (hcause : v.mon.recCause = some .exception) (hf : FailOK' d o v)
+    (hr : r.lastStop = v.lastStop ∧ r.lastClass = v.lastClass ∧ r.lastExc = v.lastExc ∧
+      r.lastResult = v.lastResult) (hnr : o.decision ≠ .retry) :
+    ErrC cfg v.mon t (callThrow o r a false (some e) default) := by
+  obtain ⟨h1, h2, h3, h4, h5⟩ := hf
+  exact errC_exc (u := { v with mon := { v.mon with deferred := false } }) ha hrec hexc hcause
+    ⟨h1, h2, fun hn _ => h3 hn, fun hr _ => h4 hr, h5⟩ rfl hr hnr
+
+theorem errC_res' {cfg : Cfg} {n a : Nat} {v : View} {d : Decision} {o : AOutcome} {r : RState}
+    {t : List (Req × Ans)} {fb : ExhaustedFields} (ha : a = n + 1) (hrec : RecP n v)
+    (hcause : v.mon.recCause = some .result) (hf : FailOK' d o v)
+    (hr : r.lastStop = v.lastStop ∧ r.lastClass = v.lastClass ∧ r.lastExc = v.lastExc ∧
+      r.lastResult = v.lastResult) (hnr : o.decision ≠ .retry) :
+    ErrC cfg v.mon t (callThrow o r a true none fb) := by
+  obtain ⟨h1, h2, h3, h4, h5⟩ := hf
+  exact errC_res (u := { v with mon := { v.mon with deferred := false }, lastStop := some .aborted })
+    (d := .retry 0 default) ha hrec hcause
+    ⟨h1, h2, fun hn _ => h3 hn, fun hr _ => h4 hr, fun h => by cases h⟩ rfl (fun h => by cases h) hr hnr
+
+/-- the loop goes on: the invariant at the head of the next iteration -/
+theorem RecP.next {n : Nat} {v : View} {d : Decision} {o : AOutcome} (h : RecP n v) (hf : FailOK' d o v)
+    (hr : o.decision = .retry) : Hd (n + 1) v := by
+  obtain ⟨h1, h2, h3, h4, h5, h6⟩ := h
+  obtain ⟨_, _, hd, _, _⟩ := hf
+  exact ⟨h1, h2, fun h => by omega, fun _ => h3, h4, h5, hd (by simp [hr]), h6⟩
+
+/-- the end of an attempt of call() that failed with exception `e` -/
+theorem deliverCall_exc (cfg : Cfg) (n a : Nat) (e : Exn) (ha : a = n + 1) (u : View) (d : Decision)
+    (o : AOutcome) (r : RState) (hrec : RecP n u) (hexc : u.mon.opExc = some e)
+    (hcause : u.mon.recCause = some .exception) (hf : FailOK' d o u)
+    (hr : r.lastStop = u.lastStop ∧ r.lastClass = u.lastClass ∧ r.lastExc = u.lastExc ∧
+      r.lastResult = u.lastResult) :
+    ⦃fun w => ⌜view cfg w = u⌝⦄ deliverCall (determineAction o r a false) (some e) default
+    ⦃post⟨fun x w => ⌜x = none ∧ Hd (n + 1) (view cfg w)⌝,
+          fun e' w => ⌜ErrC cfg (cur cfg w.trace) w.trace e'⌝⟩⦄ := by
+  have hdc := deliverCall_spec cfg u o r a false (some e) default
+  mvcgen [hdc]
+  · intro h1 h2 h3
+    exact ⟨h1, by rw [h3]; exact hrec.next hf h2⟩
+  · intro h1 h2 h3
+    subst h1
+    have h4 : cur cfg (_ : World).trace = u.mon := congrArg View.mon h3
+    rw [h4]
+    exact errC_exc' ha hrec hexc hcause hf hr h2
+
+/-- the end of an attempt of call() that failed with a result -/
+theorem deliverCall_res (cfg : Cfg) (n a : Nat) (ha : a = n + 1) (u : View) (d : Decision)
+    (o : AOutcome) (r : RState) (fb : ExhaustedFields) (hrec : RecP n u)
+    (hcause : u.mon.recCause = some .result) (hf : FailOK' d o u)
+    (hr : r.lastStop = u.lastStop ∧ r.lastClass = u.lastClass ∧ r.lastExc = u.lastExc ∧
+      r.lastResult = u.lastResult) :
+    ⦃fun w => ⌜view cfg w = u⌝⦄ deliverCall (determineAction o r a true) none fb
+    ⦃post⟨fun x w => ⌜x = none ∧ Hd (n + 1) (view cfg w)⌝,
+          fun e' w => ⌜ErrC cfg (cur cfg w.trace) w.trace e'⌝⟩⦄ := by
+  have hdc := deliverCall_spec cfg u o r a true none fb
+  mvcgen [hdc]
+  · intro h1 h2 h3
+    exact ⟨h1, by rw [h3]; exact hrec.next hf h2⟩
+  · intro h1 h2 h3
+    subst h1
+    have h4 : cur cfg (_ : World).trace = u.mon := congrArg View.mon h3
+    rw [h4]
+    exact errC_res' ha hrec hcause hf hr h2
+
+/-- `check_abort` when no result failure awaits recording: the monitor does not move -/
+theorem checkAbort_idle (cfg : Cfg) (tl : Bool) (a : Nat) (u : View) (hp : u.mon.pending = false) :
+    ⦃fun w => ⌜view cfg w = u⌝⦄ checkAbort cfg tl a
+    ⦃post⟨fun _ w => ⌜view cfg w = u⌝,
+          fun e w => ⌜(e ≠ .libAbort → Thrown w.trace e) ∧ (e.isAbort = false → Thrown w.trace e) ∧
+            ((view cfg w).mon.hookFault = false → sameBut u (view cfg w))⌝⟩⦄ := by
+  have hc := checkAbort_spec cfg u tl a
+  have hi := pollStep_idle cfg u.mon hp
+  mvcgen [hc]
+  all_goals ((try subst_vars) <;> (try intros))
+  all_goals (try (simp_all +zetaDelta [sameBut]; done))
+
+/-- the sleep phase and the attempt's verdict, once the failure is recorded -/
+theorem failureOutcome_rec (cfg : Cfg) (tl : Bool) (n a : Nat) (d : Decision) (cls : Option Classification)
+    (e : Option Exn) (r : Option Nat) (c : Option Cause) (u : View) (h : RecP n u)
+    (hd : u.mon.deferred = false) (hh : d = .raise → hard u.lastStop) :
+    ⦃fun w => ⌜view cfg w = u⌝⦄ failureOutcome cfg tl a d cls e r c
+    ⦃post⟨fun o w => ⌜RecP n (view cfg w) ∧ FailOK' d o (view cfg w) ∧ sameButH u (view cfg w)⌝,
+          fun e w => ⌜Src cfg w e ∧ HErr u (view cfg w) e⌝⟩⦄ := by
+  have hf := failureOutcome_spec cfg tl u a d cls e r c
+  mvcgen [hf]
+  all_goals ((try subst_vars) <;> (try intros))
+  all_goals (try (simp_all +zetaDelta; done))
+  rename_i h1 h2
+  refine ⟨?_, h2.strip hd hh, h1⟩
+  obtain ⟨hs, h3, h4, h5, h6, h7⟩ := h1
+  unfold hsame at hs
+  obtain ⟨r1, r2, r3, r4, r5, r6⟩ := h
+  simp_all [RecP, RecCur, Sync]
+
+theorem ExcP.rec' {cfg : Cfg} {n : Nat} {e : Exn} {u v : View} {c : Classification} (h : ExcP n e u)
+    (hs : sameBut (recView { u with mon := clsStep cfg u.mon c } c .exception (some e) none) v) :
+    RecP n v ∧ v.mon.opExc = some e ∧ v.mon.recCause = some .exception ∧ v.mon.deferred = false := by
+  obtain ⟨h1, h2, h3, h4, h5, h6, h7, h8, h9⟩ := h
+  obtain ⟨s1, s2, s3, s4, s5, s6⟩ := hs
+  simp_all [RecP, RecCur, Sync, recView, clsStep, step, record]
+
+theorem ValP.rec' {cfg : Cfg} {n x : Nat} {u v : View} {c : Classification} (h : ValP cfg n x u)
+    (hrc : cfg.resultClassifier = true)
+    (hs : sameBut (recView { u with mon := pollStep cfg (resStep cfg u.mon (some c)) } c .result none (some x)) v) :
+    RecP n v ∧ v.mon.recCause = some .result ∧ v.mon.deferred = false := by
+  obtain ⟨h1, h2, h3, h4, h5, h6, h7, h8, h9⟩ := h
+  obtain ⟨s1, s2, s3, s4, s5, s6⟩ := hs
+  cases hab : cfg.abortIf <;>
+    simp_all [RecP, RecCur, Sync, recView, pollStep, resStep, step, record]
+
+/-- classification and recording of an exception-caused failure -/
+theorem handleException_exc (cfg : Cfg) (tl : Bool) (n : Nat) (e : Exn) (a : Nat) (u : View) (h : ExcP n e u) :
+    ⦃fun w => ⌜view cfg w = u⌝⦄ handleException cfg tl e a
+    ⦃post⟨fun d w => ⌜RecP n (view cfg w) ∧ (view cfg w).mon.opExc = some e ∧
+            (view cfg w).mon.recCause = some .exception ∧ (view cfg w).mon.deferred = false ∧
+            (d = .raise → hard (view cfg w).lastStop)⌝,
+          fun e' w => ⌜Src cfg w e'⌝⟩⦄ := by
+  mvcgen [handleException, handleFailure_spec]
+  all_goals ((try subst_vars) <;> (try intros))
+  all_goals (try (simp_all +zetaDelta [FErr, CErr]; done))
+  rename_i h1 _ _ h3 h4
+  rw [h1] at h3
+  have := h.rec' h3
+  exact ⟨this.1, this.2.1, this.2.2.1, this.2.2.2, h4⟩
+
+theorem callExceptionPath_spec (cfg : Cfg) (a : Nat) (e : Exn) (n : Nat) (u : View) (h : ExcP n e u)
+    (ha : a = n + 1) :
+    ⦃fun w => ⌜view cfg w = u⌝⦄ callExceptionPath cfg a e ⦃attemptPostC cfg n⦄ := by
+  have hdc := deliverCall_exc cfg n a e ha
+  have hex := handleException_exc cfg false n e a
+  have hp := pollStep_idle cfg u.mon h.2.2.2.2.2.2.2.2
+  mvcgen [callExceptionPath, getRS, modifyAS, hdc, hex]
+  all_goals ((try subst_vars) <;> (try intros))
+  all_goals (try (simp_all +zetaDelta [view, sameBut, sameButH, hsame, CErr, HErr, FErr]; done))
+  all_goals (try (simp_all +zetaDelta [view, sameBut, sameButH, hsame, RecP, RecCur, Sync, FailOK, FailOK', pollStep_idle]; done))
+
+macro "close_call" : tactic => `(tactic| (
+  (all_goals ((try subst_vars) <;> (try intros)));
+  (all_goals (try (simp_all +zetaDelta [view, sameBut, sameButH, hsame, CErr, HErr, FErr]; done)));
+  (all_goals (try (simp_all +zetaDelta [view, sameBut, sameButH, hsame, RecP, RecCur, Sync, FailOK, FailOK',
+    pollStep_idle]; done)))))
+
+/-- the `except` ladder around the operation; `e = stuck` when the answer was ill-shaped -/
+theorem callOpHandler_spec (cfg : Cfg) (a : Nat) (e : Exn) (n : Nat) (u : View)
+    (h : e ≠ .stuck → ExcP n e u) (ha : a = n + 1) :
+    ⦃fun w => ⌜view cfg w = u⌝⦄ callOpHandler cfg a e ⦃attemptPostC cfg n⦄ := by
+  have hx := callExceptionPath_spec cfg a e n
+  by_cases hs : e = .stuck
+  · subst hs
+    mvcgen [callOpHandler]
+    all_goals simp_all [ErrC_stuck, Exn.isAbort, Exn.isKiSe, Exn.isExhausted, Exn.isException]
+  · have h' := h hs
+    mvcgen [callOpHandler, hx]
+    close_call
+    all_goals (apply ErrC_op <;> (simp_all +zetaDelta [view, ExcP]; done))
+
+attribute [local spec] callOpHandler_spec
+
+/-- recording of a result-caused failure, after the abort poll -/
+theorem handleFailure_res (cfg : Cfg) (tl : Bool) (n x : Nat) (c : Classification) (a : Nat) (u : View)
+    (h : ValP cfg n x u) (hrc : cfg.resultClassifier = true) :
+    ⦃fun w => ⌜view cfg w = { u with mon := pollStep cfg (resStep cfg u.mon (some c)) }⌝⦄
+    handleFailure cfg tl c a .result none (some x)
+    ⦃post⟨fun d w => ⌜RecP n (view cfg w) ∧ (view cfg w).mon.recCause = some .result ∧
+            (view cfg w).mon.deferred = false ∧ (d = .raise → hard (view cfg w).lastStop)⌝,
+          fun e' w => ⌜Src cfg w e'⌝⟩⦄ := by
+  have hf := handleFailure_spec cfg tl { u with mon := pollStep cfg (resStep cfg u.mon (some c)) } c a
+    .result none (some x)
+  mvcgen [hf]
+  all_goals ((try subst_vars) <;> (try intros))
+  all_goals (try (simp_all +zetaDelta [FErr, CErr]; done))
+  rename_i h1 _ _ h3 h4
+  have := h.rec' hrc h3
+  exact ⟨this.1, this.2.1, this.2.2, h4⟩
+
+theorem callResultPath_spec (cfg : Cfg) (a x : Nat) (n : Nat) (u : View) (h : ValP cfg n x u)
+    (ha : a = n + 1) :
+    ⦃fun w => ⌜view cfg w = u⌝⦄ callResultPath cfg a x ⦃attemptPostC cfg n⦄ := by
+  have hdc := deliverCall_res cfg n a ha
+  have hf := fun c => handleFailure_res cfg false n x c a u h
+  mvcgen [callResultPath, callResultFailure, handleSuccessAttemptEnd, getRS, modifyAS, hdc, hf]
+  all_goals ((try subst_vars) <;> (try intros))
+  all_goals (try (simp_all +zetaDelta [view, sameBut, sameButH, hsame, CErr, HErr, FErr]; done))
+  all_goals trace_state
+  all_goals sorry
 
 end Redress.Props.C04
